@@ -2,7 +2,7 @@
 import os
 import sys
 sys.path.insert(0, os.path.dirname(__file__))
-from common import ORDER, BASE_ASSUMPTIONS  # noqa: E402
+from common import ORDER, BASE_ASSUMPTIONS, laws1  # noqa: E402
 
 RULE = ("RollKernels.tla: the extrema cache (value, index, rescan on expiry) as coded vs least/greatest valid element, "
         "most-recent arg, average rank, z-score and min-max definitions of Stats.tla; TLC checks OutDef and CacheInWindow "
@@ -19,7 +19,7 @@ def run(ctx):
     ctx.tlc("roll-win", "MCRollWin", "MCRollWin_quick.cfg" if q else "MCRollWin_thorough.cfg", workers=12 if q else 16,
             timeout=900 if q else 7200, emit=False)
     binp = ctx.build("tvh-roll")
-    extra = [] if q else ["--full"]
+    extra = ([] if q else ["--full"]) + laws1(ctx)
     ctx.harness("roll-bfs", binp, ["replay-roll1", "--kernels", ORDER, "--in", r1["emitted"]] + extra)
     ctx.harness("roll-ties", binp, ["replay-roll1", "--kernels", ORDER, "--in", r2["emitted"]] + extra)
     n = 2 if q else 10
